@@ -72,7 +72,8 @@ CFG = {
         "slice and for TCP the total bytes written are compared with the model)",
         "'well-formed' is ReporterSpec.decode? (independent strict decoder) up to three documented parser leniencies (ReporterSpec.Quirk: "
         "keepalive with trailing bytes, heartbeat whose last string lacks its NUL, unknown strings not in name/value pairs); "
-        "rejected_no_effect/unreached_no_effect/malformed_no_effect are definitional (WellFormedMutating is defined from the model)",
+        "malformed_no_effect is definitional (WellFormedMutating is defined from the model: 'reaches a use case and is not answered err'); "
+        "rejected_no_effect (error => nothing written) and unreached_no_effect (control flow) are facts about the model, not well-formedness statements",
         "the REST port is parsed by net/http + gin (Recovery installed); no repo code below the handlers to model - see C17",
     ],
     "trusted_base": COMMON_TRUSTED + [
